@@ -16,7 +16,7 @@ import (
 )
 
 func main() {
-	mode := flag.String("mode", "updown", "updown|down")
+	mode := flag.String("mode", "updown", "updown|down|alter")
 	tier := flag.String("tier", "quick", "quick|thorough")
 	outDir := flag.String("out", "", "output directory")
 	flag.Parse()
@@ -30,6 +30,8 @@ func main() {
 		runUpDownStage(w, *tier)
 	case "down":
 		runDownStage(w, *tier)
+	case "alter":
+		runAlterStage(w, *tier)
 	default:
 		fmt.Fprintln(os.Stderr, "unknown mode")
 		os.Exit(2)
